@@ -110,6 +110,7 @@ def _run_case(rng, res, idx, maxlen):
     callable_steps = set()
     prev_factors = None
     T = 0
+    saved = []   # in-memory checkpoints (state dict object, reference state)
     for ei, ev in enumerate(hist):
         if ev[0] == 'train':
             F_now = s.ref.val('F')
@@ -213,7 +214,19 @@ def _run_case(rng, res, idx, maxlen):
             if s.p.steps == 0:
                 continue  # boundary 0 is C09's business
             compute = ev[1]
-            sd = copy.deepcopy(s.p.state_dict())
+            # either a new checkpoint (kept in memory, as a copy or as the very object state_dict() returned), or a roll-back to an
+            # in-memory checkpoint that has ALREADY been loaded once and trained on since (the same object is loaded again)
+            rollback = bool(saved) and rng.random() < 0.35
+            if rollback:
+                sd, st = saved[rng.randrange(len(saved))]
+                compute = True
+                res.count('rollbacks_to_a_checkpoint_loaded_before')
+            else:
+                sd = s.p.state_dict()
+                if rng.random() < 0.5:
+                    sd = copy.deepcopy(sd)
+                st = s.ref.save()
+                saved.append((sd, st))
             from kfac.preconditioner import KFACPreconditioner
             import warnings
             # a fresh preconditioner on the same model (old hooks stay registered but belong to the dropped object;
@@ -228,7 +241,6 @@ def _run_case(rng, res, idx, maxlen):
             s.p.load_state_dict(sd, compute_inverses=compute)
             no_sched_until_step = not compute  # compute_inverses=False relies on the next step being a refresh step
             # scheduler-modified non-callable hyper-parameters travel in the state dict
-            st = s.ref.save()
             s.ref.load(st, compute_inverses=compute)
             sched = make_sched(s.p)
             prev_factors = None
